@@ -53,6 +53,7 @@ struct FnFrame {
 struct GenChoice {
     id: usize,
     text: String,
+    tags: Vec<String>,
     invisible: bool,
     thread: Thread,
 }
@@ -80,6 +81,7 @@ pub struct Segment {
     /// (text, tags) per line, in order
     pub lines: Vec<(String, Vec<String>)>,
     pub choices: Vec<String>,
+    pub choice_tags: Vec<Vec<String>>,
     pub status: Status,
 }
 
@@ -652,29 +654,37 @@ impl Refint {
         Ok(())
     }
 
-    fn eval_string(&mut self, key: &str, xs: &[Inline], scope: &(String, String)) -> E<String> {
+    /// text and tags of a piece of choice text
+    fn eval_string(&mut self, key: &str, xs: &[Inline], scope: &(String, String)) -> E<(String, Vec<String>)> {
         self.stream.push(Tok::BeginStr);
         self.emit_pieces(key, xs, scope)?;
         let mut parts = Vec::new();
+        let mut tags = Vec::new();
         while let Some(t) = self.stream.pop() {
             match t {
                 Tok::BeginStr => break,
                 Tok::Text(s) => parts.push(s),
                 Tok::Newline => parts.push("\n".into()),
+                Tok::Tag(t) => tags.push(t),
                 _ => {}
             }
         }
         parts.reverse();
-        Ok(parts.concat())
+        tags.reverse();
+        Ok((parts.concat(), tags))
     }
 
     // ------------------------------------------------------------------ flow
 
     fn choice_point(&mut self, id: usize, scope: &(String, String)) -> E<()> {
         let info = self.ir.choices[id].clone();
-        let start = self.eval_string(&format!("cs{id}"), &info.start, scope)?;
+        let (start, mut tags) = self.eval_string(&format!("cs{id}"), &info.start, scope)?;
         let only = match &info.choice_only {
-            Some(xs) => self.eval_string(&format!("co{id}"), xs, scope)?,
+            Some(xs) => {
+                let (t, more) = self.eval_string(&format!("co{id}"), xs, scope)?;
+                tags.extend(more);
+                t
+            }
             None => String::new(),
         };
         let mut ok = true;
@@ -701,7 +711,7 @@ impl Refint {
         if thread.frames.len() > 1 {
             self.note("choice-generated-in-tunnel");
         }
-        self.choices.push(GenChoice { id, text, invisible: info.fallback, thread });
+        self.choices.push(GenChoice { id, text, tags, invisible: info.fallback, thread });
         Ok(())
     }
 
@@ -824,14 +834,15 @@ impl Refint {
     /// Runs the next segment: everything up to the next point where the player must choose or the story stops.
     pub fn segment(&mut self) -> Segment {
         if let Status::Unsupported(_) = self.status {
-            return Segment { lines: vec![], choices: vec![], status: self.status.clone() };
+            return Segment { lines: vec![], choices: vec![], choice_tags: vec![], status: self.status.clone() };
         }
         self.status = Status::Running;
         if let Err(s) = self.run() {
             self.status = s;
         }
         let lines = self.deliver();
-        Segment { lines, choices: self.visible_choices(), status: self.status.clone() }
+        let choice_tags = self.choices.iter().filter(|c| !c.invisible).map(|c| c.tags.clone()).collect();
+        Segment { lines, choices: self.visible_choices(), choice_tags, status: self.status.clone() }
     }
 
     pub fn visible_choices(&self) -> Vec<String> {
